@@ -135,13 +135,12 @@ def defclass (s : State) (c : Name) (d : ClassDef) : State :=
 def run (h : List (Name × ClassDef)) : State :=
   h.foldl (fun s p => defclass s p.1 p.2) []
 
-/-- the definition in force after a history: the last form for that name -/
-def lastDef : List (Name × ClassDef) → Name → Option ClassDef
-  | [], _ => none
-  | p :: h, c =>
-    match lastDef h c with
-    | some d => some d
-    | none => if p.1 = c then some p.2 else none
+def update (D : Name → Option ClassDef) (c : Name) (d : ClassDef) : Name → Option ClassDef :=
+  fun k => if k = c then some d else D k
+
+/-- the definitions in force after a history: the last form for each name -/
+def lastDef (h : List (Name × ClassDef)) : Name → Option ClassDef :=
+  h.foldl (fun D p => update D p.1 p.2) (fun _ => none)
 
 /-! ## precedence, typep, applicability -/
 
@@ -170,8 +169,8 @@ abbrev Inst := List (Name × Option Val)
 def slotDefsOf (s : State) : List Name → List SlotDef
   | [] => []
   | k :: ks =>
-    (match find s k with
-     | some e => e.defn.slots
+    (match defOf s k with
+     | some d => d.slots
      | none => []) ++ slotDefsOf s ks
 
 def slotNames (sds : List SlotDef) : List Name := dedup (sds.map (·.name))
@@ -195,32 +194,32 @@ def getSlot : Inst → Name → Option (Option Val)
   | [], _ => none
   | (y, w) :: r, x => if y = x then some w else getSlot r x
 
+/-- a slot during initialisation: `set` = "an initarg has filled it" (shared-initialize's nameMap) -/
+structure Cell where
+  name : Name
+  val : Option Val
+  set : Bool
+deriving DecidableEq, Repr
+
 /-- initObjSlots: every effective slot, unbound -/
-def blank (sds : List SlotDef) : Inst := (slotNames sds).map (fun x => (x, none))
+def blank (sds : List SlotDef) : List Cell := (slotNames sds).map (fun x => { name := x, val := none, set := false })
 
-/-- one supplied `(initarg value)` pair: fills every slot that lists the initarg and has not been
-    filled by an earlier pair (`done` = the slots already filled) -/
-def applyArg (sds : List SlotDef) (k : Name) (v : Val) : Inst → List Name → Inst × List Name
-  | [], done => ([], done)
-  | (x, w) :: r, done =>
-    let (r', done') := applyArg sds k v r done
-    if (initargsFor sds x).contains k && !(done.contains x) then ((x, some v) :: r', x :: done')
-    else ((x, w) :: r', done')
+/-- one supplied `(initarg value)` pair reaches a slot when the slot lists the initarg and no
+    earlier pair has filled it -/
+def stepCell (sds : List SlotDef) (k : Name) (v : Val) (c : Cell) : Cell :=
+  if (initargsFor sds c.name).contains k && !c.set then { c with val := some v, set := true } else c
 
-def applyArgs (sds : List SlotDef) : List (Name × Val) → Inst → List Name → Inst × List Name
-  | [], inst, done => (inst, done)
-  | (k, v) :: args, inst, done =>
-    let (inst', done') := applyArg sds k v inst done
-    applyArgs sds args inst' done'
+/-- the supplied pairs, left to right; each pair is offered to every slot -/
+def applyArgs (sds : List SlotDef) (args : List (Name × Val)) (cells : List Cell) : List Cell :=
+  args.foldl (fun cs a => cs.map (stepCell sds a.1 a.2)) cells
 
-/-- the initform pass of shared-initialize: slots no initarg reached -/
-def applyForms (sds : List SlotDef) (done : List Name) : Inst → Inst
-  | [] => []
-  | (x, w) :: r =>
-    (if done.contains x then (x, w)
-     else match initformFor sds x with
-       | some v => (x, some v)
-       | none => (x, w)) :: applyForms sds done r
+/-- the initform pass of shared-initialize: slots no initarg reached get their most specific
+    initform, if any -/
+def formCell (sds : List SlotDef) (c : Cell) : Name × Option Val :=
+  if c.set then (c.name, c.val)
+  else match initformFor sds c.name with
+    | some v => (c.name, some v)
+    | none => (c.name, c.val)
 
 inductive Err where
   | notReady      -- class undefined or with undefined superclasses
@@ -231,8 +230,7 @@ def validArg (sds : List SlotDef) (k : Name) : Bool := sds.any (fun sd => sd.ini
 
 /-- instance construction from the slot definitions in precedence order -/
 def build (sds : List SlotDef) (args : List (Name × Val)) : Inst :=
-  let (inst, done) := applyArgs sds args (blank sds) []
-  applyForms sds done inst
+  (applyArgs sds args (blank sds)).map (formCell sds)
 
 /-- `(make-instance c k1 v1 …)` -/
 def makeInstance (s : State) (c : Name) (args : List (Name × Val)) : Except Err Inst :=
